@@ -3,7 +3,7 @@
      call {id, kind, t}                      P2PConnection.request entered (kind = expected response class)
      tx {tpci: connect|disconnect|data|ack, seq, dst (1 peer, 0 other)}
      rx {tpci: ack|nak|data|disconnect|other, seq, kind, src (1 peer, 0 other)}   frame handed to handle_raw_cemi
-     ret {id, out: ok|err, why, kind, seq, t}     request returned / raised a ManagementConnectionError
+     ret {id, out: ok|err|gaveup, why, kind, seq, t}     request returned / raised a ManagementConnectionError / was cancelled by its caller
    An exception out of the receive path or any other exception of request() is an event nothing explains ("raised:...") *)
 EXTENDS Integers, Sequences, FiniteSets, Json, IOUtils, TLC
 Traces == ndJsonDeserialize(IOEnv.TRACE_FILE)
@@ -26,6 +26,7 @@ Step ==
      \/ Ev.ev = "rx" /\ Ev.tpci = "other" /\ P!RxOther
      \/ Ev.ev = "ret" /\ Ev.out = "ok" /\ P!RetOk(Ev.id, Ev.kind, Ev.seq, Ev.t)
      \/ Ev.ev = "ret" /\ Ev.out = "err" /\ P!RetErr(Ev.id, Ev.why, Ev.t)
+     \/ Ev.ev = "ret" /\ Ev.out = "gaveup" /\ P!RetGaveUp(Ev.id)
 TSpec == TInit /\ [][Step]_vars
 Mark == /\ TLCSet(2, [TLCGet(2) EXCEPT ![tid] = IF @ < l THEN l ELSE @])
         /\ (l = Len(Traces[tid].ev) + 1 => TLCSet(1, TLCGet(1) \cup {tid}))
